@@ -5,9 +5,9 @@ range, as soon as the message is shorter than 2^32 bytes (which also bounds the 
 in it: every item and every attribute takes at least 8 bytes).
 -/
 import KmipModel.Lemmas.RangeResults
-import KmipModel.Lemmas.RangeReasons
+import KmipModel.Lemmas.RangeReasons3
 namespace Kmip.Encode
-open Kmip Kmip.TTLV
+open Kmip Kmip.TTLV Kmip.Decode
 open Kmip.EngineResponse (bytesOf verPair)
 
 /-! ### every item takes at least 8 bytes -/
@@ -62,8 +62,8 @@ theorem attrs_payload_ge (ver op : Nat) (extra : List TItem) (u : String) (as : 
           rw [hm] at h
           simp only [Option.map_some, Option.some.injEq] at h; subst h
           have h1 := encodeList_ge xs
-          have h2 := struct_ge Decode.T.attributes_ xs
-          have h3 := encode_le_list [uidItem u, .struct Decode.T.attributes_ xs] (.struct Decode.T.attributes_ xs)
+          have h2 := struct_ge T.attributes_ xs
+          have h3 := encode_le_list [uidItem u, .struct T.attributes_ xs] (.struct T.attributes_ xs)
             (by simp)
           rw [mapO_length _ _ _ hm] at h1
           omega
@@ -134,7 +134,7 @@ def ResultAlmost (r : ItemResult) : Prop :=
   | .error (.internal _) => True
 
 theorem payload_op_u32 (p : Payload) (h : payloadReq p = true) : u32 p.op = true := by
-  cases p <;> first | exact h | decide
+  cases p <;> first | exact h | rfl
 
 theorem batchSpec_results (c : Ctx) (hn : i64 (Int.ofNat c.now) = true)
     (hv : ∀ v ∈ c.supportedVersions, v < 21474836480) (stop : Bool) (e : Engine) (items : List Kmip.Item)
